@@ -3,7 +3,7 @@
 (after checking that each applies to a fresh worktree and that the stable baseline passes) and registers them in selftest/benign/index.json."""
 import json, os, shutil, subprocess, sys, tempfile
 mod = sys.argv[1]
-root = f"/tmp/ben/{mod}/_ben"
+root = f"{os.environ.get('BEN_ROOT', '/tmp/ben')}/{mod}/_ben"
 out = "/verif/selftest/benign"
 idx_path = os.path.join(out, "index.json")
 idx = json.load(open(idx_path))
@@ -11,7 +11,7 @@ for n in sorted(os.listdir(root)):
     pf = os.path.join(root, n, "patch.diff")
     if not os.path.exists(pf):
         continue
-    name = f"a_{mod}_{n}"
+    name = f"{os.environ.get('BEN_PREFIX', 'a')}_{mod}_{n}"
     wt = tempfile.mkdtemp(prefix="ib-", dir="/tmp"); os.rmdir(wt)
     subprocess.run(["git", "-C", "/repo", "worktree", "add", "-q", "--detach", wt, "HEAD"], check=True)
     try:
